@@ -82,7 +82,7 @@ OTHERS = {
 }
 
 
-def sc_step(V, natoms=1, others="zero", per_coord_delta=False, power=0.25, symbolic="f"):
+def sc_step(V, natoms=1, others="zero", per_coord_delta=False, power=0.25, symbolic="f", shaped_masses=False):
     from ase.units import kB
 
     from quansino.mc.fbmc import ForceBias
@@ -91,7 +91,7 @@ def sc_step(V, natoms=1, others="zero", per_coord_delta=False, power=0.25, symbo
     # checked for symbolic f, delta, T in the `density` scenario)
     f = V.real("f") if symbolic == "f" else -3.7
     T = 300.0
-    info = f"atoms={natoms}:others={others}:percoord={per_coord_delta}:p={power}:sym={symbolic}"
+    info = f"atoms={natoms}:others={others}:percoord={per_coord_delta}:p={power}:sym={symbolic}:shaped={shaped_masses}"
     if V.mode == "sym":
         atoms = shims.SymAtoms("HO"[:natoms], positions=[[0.0, 0.0, 0.0], [1.5, 0.2, -0.3]][:natoms])
     else:
@@ -112,6 +112,10 @@ def sc_step(V, natoms=1, others="zero", per_coord_delta=False, power=0.25, symbo
         delta = d0
     fb = ForceBias(atoms, delta=delta, temperature=T, seed=3)
     fb.masses_scaling_power = power
+    if shaped_masses:
+        # per-coordinate masses (public update_masses): the bound refers to the smallest of ALL of them
+        shaped = np.array([[1.0, 4.0, 16.0], [2.0, 8.0, 32.0]][:natoms])
+        fb.update_masses(shaped)
     if V.mode == "sym":
         # control structure only: exp stays a bare uninterpreted function here (congruence suffices;
         # its analytic properties are used in the `density` scenario)
@@ -219,12 +223,13 @@ def sc_step(V, natoms=1, others="zero", per_coord_delta=False, power=0.25, symbo
             V.reach(f"iterations={iters}")
     # ---------------- bound, single advance, termination
     new = np.asarray(atoms.get_positions(), dtype=object if V.mode == "sym" else float)
-    mmin = float(np.min(masses))
+    mass_of = (lambda idx: shaped[idx]) if shaped_masses else (lambda idx: masses[idx[0]])
+    mmin = float(np.min(shaped)) if shaped_masses else float(np.min(masses))
     goals_b, goals_o = [], []
     zf = np.asarray(fb.zeta, dtype=object if V.mode == "sym" else float)
     for idx in np.ndindex(*shape):
         dl = delta[idx] if per_coord_delta else delta
-        scale = (mmin / masses[idx[0]]) ** power
+        scale = (mmin / float(mass_of(idx))) ** power
         bound = dl * scale
         dr = new[idx] - pos0[idx]
         exp_dr = zf[idx] * dl * scale
@@ -333,6 +338,7 @@ def _plan(tier):
         ("step", dict(natoms=1, others="zero", per_coord_delta=False, power=0.25, symbolic="delta"), ("stepped",)),
         ("step", dict(natoms=2, others="zero", per_coord_delta=False, power=0.25, symbolic="f"), ("stepped",)),
         ("step", dict(natoms=1, others="zero", per_coord_delta=True, power=0.5, symbolic="delta"), ("stepped",)),
+        ("step", dict(natoms=2, others="zero", per_coord_delta=False, power=0.25, symbolic="delta", shaped_masses=True), ("stepped",)),
     ]
     if tier != "quick":
         plan.append(("step", dict(natoms=2, others="zero", per_coord_delta=True, power=1.0, symbolic="delta"), ("stepped",)))
